@@ -352,7 +352,7 @@ func runC20(c C20Case, cs *kit.CaseStats) error {
 }
 
 var c20Prop = kit.Prop[C20Case]{
-	ID: "C20",
+	ID:   "C20",
 	Rule: "cases drawn by rapid over five families: uniform 128-bit entropy (encode = big.Int reference, decode∘encode = id, seed/key derivation = blake2b/ed25519 reference); uniform 12-word sequences (decoder accepts iff reference checksum holds, then entropy and re-encoding equal the reference); one word of a valid phrase replaced by any list word; whitespace variants of a valid phrase; malformed phrases (word count, case, suffix, non-word, glued words). Every case is non-trivial; distinct = distinct (family, entropy|words, position, index) tuple by hash of the case.",
 	Assumptions: []string{
 		"harness BIP-39 reference: big.Int bit strings, own copy of the canonical word list (sha256 pinned), four published BIP-39 vectors (TestC20Vectors)",
